@@ -73,8 +73,13 @@ def _writes_to(name: str, fnode: ast.AST) -> List[ast.AST]:
     return out
 
 
-def rule_inventory(ctx: Ctx):
+def rule_inventory(ctx: Ctx, rule: str = "C16.inventory", writers_reachable_from=None):
+    """`writers_reachable_from`: when another property shares the rule, only the objects written from code reachable from these entry
+    points concern it (e.g. the restore path of a clone)."""
     rep = ctx.rep
+    only_reach = None
+    if writers_reachable_from is not None:
+        only_reach = callgraph(ctx).reachable([f for f in writers_reachable_from if f is not None])
     written: Dict[str, List[Tuple[FuncInfo, ast.AST]]] = {}
     inventory: List[str] = []
     # module-level objects
@@ -202,22 +207,26 @@ def rule_inventory(ctx: Ctx):
                              if isinstance(n, ast.Attribute) and n.attr == name and isinstance(n.ctx, ast.Load)]
                     if users and not shadowed:
                         written.setdefault(key, []).extend(users[:3])
-    rep.floor("C16.inventory", "shared mutable objects inventoried", len(inventory), 6)
+    rep.floor(rule, "shared mutable objects inventoried", len(inventory), 6)
     rep.extra["shared_mutable_inventory"] = sorted(inventory)
     for key in sorted(inventory):
         ws = written.get(key, [])
         if not ws:
-            rep.ok("C16.inventory", key, f"`{key.split('::')[1]}` is a constant table: never written after import")
+            rep.ok(rule, key, f"`{key.split('::')[1]}` is a constant table: never written after import")
         elif key in WRITTEN_OK:
-            rep.ok("C16.inventory", key, f"`{key.split('::')[1]}` is written after import - triaged: {WRITTEN_OK[key]}",
+            rep.ok(rule, key, f"`{key.split('::')[1]}` is written after import - triaged: {WRITTEN_OK[key]}",
                    writers=sorted({f.qualname for f, _ in ws}))
+        elif only_reach is not None and not any(f_ in only_reach for f_, _ in ws):
+            continue
         else:
-            f, w = ws[0]
-            rep.violation("C16.inventory", f.loc(w), f"process-wide mutable `{key.split('::')[1]}` is written from `{f.qualname}`: "
+            f, w = next(((f_, w_) for f_, w_ in ws if only_reach is None or f_ in only_reach), ws[0])
+            rep.violation(rule, f.loc(w), f"process-wide mutable `{key.split('::')[1]}` is written from `{f.qualname}`: "
                           "state shared by every machine of the process", key, norm_stmt(_stmt(f, w)), writers=sorted({x.qualname for x, _ in ws}))
     for key in WRITTEN_OK:
         if key not in inventory:
             rep.count("triaged_objects_absent", 1)
+    if only_reach is not None:
+        return
     # the private fallback loop is per *thread*: a thread-local holder.  A context variable is copied into worker threads
     # (asyncio.to_thread, copy_context().run), a plain global is shared by all of them: two machines driven from two such
     # workers would then run their coroutines on one loop ("This event loop is already running").
@@ -233,7 +242,7 @@ def rule_inventory(ctx: Ctx):
         if not used:
             continue
         ctor = show(val.func) if isinstance(val, ast.Call) else show(val)
-        rep.check(ctor in ("threading.local", "local"), "C16.inventory", f"{um.rel} {nm}", "the holder of the private fallback event loop is "
+        rep.check(ctor in ("threading.local", "local"), rule, f"{um.rel} {nm}", "the holder of the private fallback event loop is "
                   "thread-local (one loop per thread, never inherited by or shared with another thread)", f"{um.rel}::{nm}", f"{nm} = {show(val)}")
 
 
